@@ -364,3 +364,141 @@ pub fn run(args: &[String], out: &mut Sink) {
     }
     out.samples.push(format!("flock: {} cases; per case: 6-thread creation race, 3 same-process + 6 racing + 1 other-process refused opens with directory fingerprint, strace of a refused open, reopen right after drop, after poison, after kill -9", cases));
 }
+
+/// C20 "…once the handle is dropped (normally, after a failed commit, or by process death) the directory can be opened again and
+/// ALL BACKGROUND WRITERS OF THE OLD HANDLE HAVE FINISHED": a commit that fails fast with bucket exhaustion (16 buckets) poisons
+/// the handle while the value store of the same commit has already queued thousands of page writes on the single I/O worker; the
+/// handle is dropped while they are in flight and another thread spins on `Nomt::open` of the same directory.  From the moment that
+/// open succeeds, no mutating file operation of the old handle may complete any more (observed through the I/O hook: every write
+/// completion is an `End` event; the new handle is idle).  Found necessary by the seeded change `C20-lock-released-before-io-shutdown`.
+pub fn drop_with_queued_writes(args: &[String], out: &mut Sink) {
+    let seed: u64 = arg(args, "--seed").and_then(|s| s.parse().ok()).unwrap_or(1);
+    let rounds: usize = arg(args, "--cases").and_then(|s| s.parse().ok()).unwrap_or(3);
+    // the first `--early` rounds drop the handle at once (replay of the known finding F26: the orphaned task is then still ALLOCATING);
+    // they stop as soon as the finding has shown once.  The other rounds drop in the middle of the queued page writes.
+    let early: usize = arg(args, "--early").and_then(|s| s.parse().ok()).unwrap_or(0);
+    let mut f26_seen = false;
+    let pid = std::process::id();
+    let mut rng = Rng::new(seed ^ 0xd20);
+    for round in 0..rounds + early {
+        let early_round = round < early;
+        if early_round && f26_seen {
+            continue;
+        }
+        let dir = format!("/dev/shm/nomt-verif-db-{pid}-flockq-{seed}-{round}");
+        let _ = std::fs::remove_dir_all(&dir);
+        out.mark_case(format!("flock drop-with-queued-writes round {round}"));
+        let opts = |dir: &str| {
+            let mut o = nomt::Options::new();
+            o.path(dir);
+            o.bitbox_seed([0; 16]);
+            o.hashtable_buckets(16);
+            o.commit_concurrency(16);
+            o.io_workers(1);
+            o.preallocate_ht(false);
+            o
+        };
+        iohook::install(Mode::Observe, Loss::None, None);
+        let db = match Db::open(opts(&dir)) {
+            Ok(d) => d,
+            Err(e) => {
+                out.fail(format!("C20 queued-writes: cannot create the store: {e:#}"));
+                let _ = iohook::uninstall();
+                continue;
+            }
+        };
+        // ~100 MiB of leaves (100 000 keys x 1000 bytes): far more merkle pages than 16 buckets
+        let n = 100_000usize;
+        let mut access: Vec<(Key, nomt::KeyReadWrite)> = (0..n)
+            .map(|i| {
+                let k = rng.bytes32();
+                let v: Vec<u8> = (0..1000).map(|j| ((j ^ i) as u8) | 1).collect();
+                (k, nomt::KeyReadWrite::Write(Some(v)))
+            })
+            .collect();
+        access.sort_by_key(|(k, _)| *k);
+        access.dedup_by_key(|(k, _)| *k);
+        let s = db.begin_session(nomt::SessionParams::default());
+        let r = match s.finish(access) {
+            Ok(fin) => fin.commit(&db),
+            Err(e) => Err(e),
+        };
+        if r.is_ok() {
+            out.count("queued_writes_commit_unexpectedly_ok");
+        } else if !db.is_poisoned() {
+            out.fail("C14 commit failed with bucket exhaustion but the handle is not poisoned".into());
+        }
+        let (opened_tx, opened_rx) = std::sync::mpsc::channel::<u64>();
+        let (dropped_tx, dropped_rx) = std::sync::mpsc::channel::<()>();
+        let opener = {
+            let dir = dir.clone();
+            std::thread::spawn(move || {
+                let t0 = std::time::Instant::now();
+                let second = loop {
+                    match Db::open(opts(&dir)) {
+                        Ok(d) => break Some(d),
+                        Err(_) if t0.elapsed().as_secs() < 60 => std::thread::yield_now(),
+                        Err(_) => break None,
+                    }
+                };
+                // we own the directory now: everything the hook has seen so far …
+                let mark = iohook::log_len();
+                let _ = opened_tx.send(mark as u64);
+                let _ = dropped_rx.recv();
+                std::thread::sleep(std::time::Duration::from_millis(300));
+                // … must be everything (this handle is idle)
+                let later = iohook::events_from(mark);
+                (second.is_some(), later)
+            })
+        };
+        std::thread::sleep(std::time::Duration::from_millis(5));
+        if opened_rx.try_recv().is_ok() {
+            out.fail("C20 queued-writes: a second open of the directory succeeded while the first handle is alive".into());
+        }
+        // drop the poisoned handle while the value writes of the failed commit are in flight: wait until the first 8 MiB of them
+        // have reached `ln` (of ~100 MiB queued or about to be queued by the orphaned task)
+        if !early_round {
+            use std::os::unix::fs::MetadataExt;
+            let t0 = std::time::Instant::now();
+            while t0.elapsed().as_secs() < 5 {
+                let blocks = std::fs::metadata(format!("{dir}/ln")).map(|m| m.blocks()).unwrap_or(0);
+                if blocks >= 16384 {
+                    out.count("queued_writes_dropped_mid_write");
+                    break;
+                }
+                std::thread::yield_now();
+            }
+        }
+        let inflight_at_drop = iohook::inflight();
+        drop(db);
+        let _ = dropped_tx.send(());
+        let (opened, later) = opener.join().unwrap_or((false, vec![]));
+        let _ = iohook::uninstall();
+        if !opened {
+            out.fail("C20 queued-writes: the directory could not be opened within 60 s after the poisoned handle was dropped".into());
+        }
+        // F26 (known finding): the orphaned beatree task of the FAILED commit may still extend a value file (`allocator.grow`, a plain
+        // ftruncate) after the lock was released — reported separately from page writes / fsyncs completing late
+        let grows: Vec<&String> = later.iter().filter(|l| l.contains("SetLen:allocator.grow")).collect();
+        if !grows.is_empty() {
+            f26_seen = true;
+            out.fail(format!(
+                "C20 F26 orphaned beatree sync task of a failed commit extended a value file after another open of the directory had succeeded: {} operations, first: {}",
+                grows.len(),
+                grows[0]
+            ));
+        }
+        let late: Vec<&String> = later.iter().filter(|l| !l.contains("SetLen:allocator.grow") && (l.contains("Write") || l.contains("SetLen") || l.contains("Fsync"))).collect();
+        out.add("queued_writes_inflight_at_drop", inflight_at_drop.max(0) as u64);
+        out.count("queued_writes_rounds");
+        if !late.is_empty() {
+            out.fail(format!(
+                "C20 background writers of the dropped handle were still running after another open of the directory had succeeded: {} file operations completed afterwards, first: {}",
+                late.len(),
+                late[0]
+            ));
+        }
+        out.nontrivial(&format!("flockq {round} {inflight_at_drop}"));
+        let _ = std::fs::remove_dir_all(&dir);
+    }
+}
